@@ -158,20 +158,20 @@ theorem renderVariable_safe (cx : RCtx R) (hg : cx.guardIndexRead = true) (st : 
       intro value _
       split
       · exact Safe.ok _ ⟨by simp only []; omega, rfl⟩
-      · have hkey : Safe (if v.idLen ≠ 0 then (do
-            let it ← itemAt (emit st pre) v.level
-            pure (if it.key.length ≠ 0 then some it.key else none))
-            else (pure none : Except Fault (Option (List Nat)))) (fun _ => True) := by
+      · have hkey : Safe (loopKeyText (emit st pre) v) (fun _ => True) := by
+          unfold loopKeyText
           split
+          · exact Safe.ok _ trivial
           · rename_i hid
             have hl : v.level < st.items.length := by
               simp only [wfVar, Bool.and_eq_true, decide_eq_true_eq, Bool.or_eq_true, beq_iff_eq] at hv
               rcases hv.2 with h | h
               · exact absurd h hid
               · omega
-            apply Safe.bind (itemAt_safe (emit st pre) v.level hl)
-            intro it _; exact Safe.ok _ trivial
-          · exact Safe.ok _ trivial
+            have := itemAt_safe (emit st pre) v.level hl
+            cases hit : itemAt (emit st pre) v.level with
+            | ok it => exact Safe.ok _ trivial
+            | error e => rw [hit] at this; exact this
         apply Safe.bind hkey
         intro keyTxt _
         split
